@@ -16,6 +16,11 @@ Oracle (implementation alone):
             the one the estimator reports (`get_params()["validity"]`) when fit is called;
         (d') the same on estimators whose validity index was changed after construction (attribute assignment,
             `set_params`, twice, there and back, same value, on a deep copy, after an earlier fit);
+        (d'') the same on hosts whose base module has a hyper-parameter of its OWN called `validity` (iCVIFuzzyART,
+            validity=1, offline and online) while the host is built with any of the three indices: `get_params()["validity"]`
+            is the index the host was built with and every join strictly improves THAT index — base module fresh, trained
+            before being wrapped, shared by two hosts (the other one fitted first or not), its own `validity` assigned
+            again behind the host, host deep-copied, host index assigned again; FuzzyART base as the control;
         (f) data whose common offset is huge relative to its spread (a timestamp-like column ~1.7e9 fed to `iCVI_CH`
             directly, add/switch sequences; complement-coded rows confined to a band ~1e-8 wide for `iCVIFuzzyART`,
             offline and online): tracked value = the batch index computed in EXACT rational arithmetic from the same
@@ -520,10 +525,12 @@ def _blob_rows(r, n: int, d: int) -> np.ndarray:
     return np.array(rows, dtype=float).reshape(n, d)
 
 
-def _cviart_gate_run(ctx, funcs, m, X, mode, eps, epochs, rep, key, changed):
+def _cviart_gate_run(ctx, funcs, m, X, mode, eps, epochs, rep, key, changed, index=None, sig=None):
     """One observed `CVIART.fit` of the already configured estimator `m`.  The index of the gate clause is the one the
     ESTIMATOR REPORTS (`get_params()["validity"]`) when fit is called — not whatever value travels inside fit —: every
-    join of an existing category must make the batch value of THAT index strictly better than before the step."""
+    join of an existing category must make the batch value of THAT index strictly better than before the step.
+    With `index` given (d'') the clause is stated for that index — the one the caller configured the host with — whatever
+    the estimator reports (the caller has compared the two); `sig` is then the signature of a join that breaks it."""
     cov = ctx.cov
     n = len(X)
     try:
@@ -532,13 +539,14 @@ def _cviart_gate_run(ctx, funcs, m, X, mode, eps, epochs, rep, key, changed):
     except Exception as e:
         ctx.issue("violation", f"CVIART.get_params:{exc_enum(e)}", f"get_params raised {e!r}", rep)
         return None
-    if reported not in funcs:
+    if index is None and reported not in funcs:
         ctx.issue("violation", "CVIART.get_params:validity is not one of the three indices",
                   f"get_params()['validity'] = {reported!r}", rep)
         return None
-    vname = VI_NAMES[reported]
-    rep = dict(rep, reported_validity=vname)
-    f = funcs[reported]
+    clause = reported if index is None else index
+    vname = VI_NAMES[clause]
+    rep = dict(rep, reported_validity=VI_NAMES.get(reported, repr(reported)))
+    f = funcs[clause]
     calls = []
     steps = []
     orig_match = m.CVI_match
@@ -618,18 +626,25 @@ def _cviart_gate_run(ctx, funcs, m, X, mode, eps, epochs, rep, key, changed):
             continue
         if changed:
             cov.hit("cvi-gate:joined-existing:index-changed-after-construction")
-        better = old is not None and ((new < old) if reported == 2 else (new > old))
+        if index is not None:
+            cov.hit("cvi-gate:joined-existing:judged-by-the-index-the-host-was-built-with")
+        better = old is not None and ((new < old) if clause == 2 else (new > old))
         if not better:
-            if changed:
-                sig = f"CVIART.fit:validity changed after construction:join without a strictly better reported index:{vname}"
+            if index is not None:
+                sg = f"{sig}:{vname}"
+                who = f"the host was configured with validity={vname} (it reports {rep['reported_validity']})"
+            elif changed:
+                sg = f"CVIART.fit:validity changed after construction:join without a strictly better reported index:{vname}"
+                who = f"the estimator reports validity={vname}"
             else:
-                sig = f"CVIART.CVI_match:True without a strictly better index:{vname}"
-            ctx.issue("violation", sig,
-                      f"the estimator reports validity={vname}; sample {idx} (epoch {sidx // n}) joined the existing category "
+                sg = f"CVIART.CVI_match:True without a strictly better index:{vname}"
+                who = f"the estimator reports validity={vname}"
+            ctx.issue("violation", sg,
+                      f"{who}; sample {idx} (epoch {sidx // n}) joined the existing category "
                       f"{c}: {vname} of the labelling before the step {old!r}, after {new!r}"
-                      + (f" (configuration history: {rep.get('configured')})" if changed else ""),
+                      + (f" (configuration history: {rep.get('configured')})" if (changed or index is not None) else ""),
                       dict(rep, sample=idx, epoch=sidx // n))
-            if changed:
+            if changed or index is not None:
                 break   # one report per reconfigured run: the following joins of the run repeat it
     for t in calls:
         cov.hit("cvi-gate:allowed" if t[2] else "cvi-gate:vetoed")
@@ -777,6 +792,113 @@ def check_cviart_reconfigured(ctx):
         cov.hit(f"cviart-reconf:{VI_NAMES[v0]}->{VI_NAMES[final]}")
         key = ("cviart-reconf", how, v0, v1, v2, p, mode, eps, X.tolist(), epochs)
         labels = _cviart_gate_run(ctx, funcs, m, X, mode, eps, epochs, rep, key, changed=True)
+        if labels is not None and i < 2:
+            cov.sample({"CVIART": rep["configured"], "params": p, "mode": mode, "n": n, "labels": labels})
+
+
+OWNV_BASES = ["icvi-offline", "icvi-online", "icvi-offline", "icvi-online", "icvi-offline", "icvi-online", "fuzzy"]
+OWNV_LIVES = ["fresh", "base-fitted-before-being-wrapped", "base-shared-by-two-hosts", "base-validity-set-behind-the-host",
+              "host-deepcopy", "fresh", "other-host-of-the-base-fitted-first", "host-index-set-again"]
+OWNV_SIG_REPORT = "CVIART.__init__:get_params()['validity'] is not the index the host was built with"
+OWNV_SIG_GATE = "CVIART.fit:base module has a hyper-parameter of its own called validity:join without a strictly better host index"
+
+
+def check_cviart_base_with_own_validity(ctx):
+    """(d'') the host's hyper-parameters are the base module's plus `validity`; a base module may carry a hyper-parameter
+    of its OWN with that very name (iCVIFuzzyART: `validity` = CALINSKIHARABASZ = 1, `offline`).  The index of the
+    property's clause is the one the HOST was built with: `get_params()["validity"]` reports it and every join of an
+    existing category strictly improves IT — whatever the base module's own `validity` says, and whatever happened to the
+    base module before (trained on its own, wrapped by another host as well, its own `validity` assigned again after the
+    host was built) or to the host (deep copy, the same index assigned again).  A plain FuzzyART base runs through the
+    same lifecycles as the control."""
+    import copy
+    cov = ctx.cov
+    M = _sk()
+    funcs = {1: M.calinski_harabasz_score, 2: M.davies_bouldin_score, 3: M.silhouette_score}
+    N = ctx.scale(48, 400)
+    nmax = ctx.scale(18, 26)
+    for i in range(N):
+        r = gen.rng_for(ctx.seed, "C15-cviart-ownvalidity", i)
+        kind = OWNV_BASES[i % len(OWNV_BASES)]
+        life = OWNV_LIVES[(i // 3) % len(OWNV_LIVES)]
+        v = (2, 3, 1, 3, 2)[i % 5]            # mostly an index other than the base module's own value (1)
+        d, n, mode, eps, X, p, epochs = _cviart_inputs(r, i, nmax, blobs=(r.random() < 0.6))
+        if r.random() < 0.5:
+            p["rho"] = r.choice([0.0, 0.25, 0.5])   # low vigilance: the index decides, not the base module
+            if p["rho"] == 0.0 and p["alpha"] == 0.0:
+                p["alpha"] = 2.0 ** -10
+
+        def mk_base():
+            if kind == "fuzzy":
+                return FuzzyART(p["rho"], p["alpha"], p["beta"])
+            return iCVIFuzzyART(p["rho"], p["alpha"], p["beta"], validity=iCVIFuzzyART.CALINSKIHARABASZ,
+                                offline=(kind == "icvi-offline"))
+
+        base_txt = "FuzzyART" if kind == "fuzzy" else f"iCVIFuzzyART(validity=1, offline={kind == 'icvi-offline'})"
+        history = []
+        rep = {"base": base_txt, "host_validity": VI_NAMES[v], "lifecycle": life, "params": p, "mode": mode, "eps": eps,
+               "X": X, "max_iter": epochs}
+        try:
+            with quiet():
+                base = mk_base()
+                if life == "base-fitted-before-being-wrapped":
+                    try:
+                        base.fit(X, match_tracking=mode, epsilon=eps)
+                        history.append("base.fit(X)")
+                    except Exception:
+                        history.append("base.fit(X) raised")
+                v_other = r.choice([t for t in (1, 2, 3) if t != v])
+                other = None
+                if life in ("base-shared-by-two-hosts", "other-host-of-the-base-fitted-first"):
+                    other = CVIART(base, v_other)
+                    history.append(f"other = CVIART(base, {VI_NAMES[v_other]})")
+                m = CVIART(base, v)
+                history.append(f"m = CVIART(base, {VI_NAMES[v]})")
+                if life == "other-host-of-the-base-fitted-first":
+                    try:
+                        other.fit(X, max_iter=1, match_tracking=mode, epsilon=eps)
+                        history.append("other.fit(X)")
+                    except Exception:
+                        history.append("other.fit(X) raised")
+                elif life == "base-validity-set-behind-the-host" and kind != "fuzzy":
+                    if r.random() < 0.5:
+                        base.validity = iCVIFuzzyART.CALINSKIHARABASZ
+                        history.append("base.validity = 1")
+                    else:
+                        base.set_params(validity=iCVIFuzzyART.CALINSKIHARABASZ)
+                        history.append("base.set_params(validity=1)")
+                elif life == "host-deepcopy":
+                    m = copy.deepcopy(m)
+                    history.append("m = deepcopy(m)")
+                elif life == "host-index-set-again":
+                    if r.random() < 0.5:
+                        m.validity = v
+                        history.append(f"m.validity = {VI_NAMES[v]}")
+                    else:
+                        m.set_params(validity=v)
+                        history.append(f"m.set_params(validity={VI_NAMES[v]})")
+                rp = m.get_params()["validity"]
+                if other is not None:
+                    rp_other = other.get_params()["validity"]
+        except Exception as e:
+            ctx.issue("violation", f"CVIART:{exc_enum(e)}:host of a base module with its own validity ({kind}, {life})",
+                      f"{base_txt}; {'; '.join(history)} then {e!r}", rep)
+            continue
+        rep["configured"] = f"base = {base_txt}; " + "; ".join(history)
+        cov.hit(f"cviart-ownvalidity:base={kind}")
+        cov.hit(f"cviart-ownvalidity:{life}")
+        cov.hit("cviart-ownvalidity:host-index " + ("!=" if v != 1 else "==") + " the base module's own validity"
+                if kind != "fuzzy" else "cviart-ownvalidity:control(FuzzyART base)")
+        if rp != v:
+            ctx.issue("violation", OWNV_SIG_REPORT,
+                      f"{rep['configured']}: get_params()['validity'] = {rp!r} ({VI_NAMES.get(rp, '?')}), the host was built with "
+                      f"{v!r} ({VI_NAMES[v]})", rep)
+        if other is not None and rp_other != v_other:
+            ctx.issue("violation", OWNV_SIG_REPORT,
+                      f"{rep['configured']}: other.get_params()['validity'] = {rp_other!r}, that host was built with "
+                      f"{v_other!r} ({VI_NAMES[v_other]})", dict(rep, host_validity=VI_NAMES[v_other]))
+        key = ("cviart-ownvalidity", kind, life, v, p, mode, eps, X.tolist(), epochs)
+        labels = _cviart_gate_run(ctx, funcs, m, X, mode, eps, epochs, rep, key, changed=False, index=v, sig=OWNV_SIG_GATE)
         if labels is not None and i < 2:
             cov.sample({"CVIART": rep["configured"], "params": p, "mode": mode, "n": n, "labels": labels})
 
@@ -1135,5 +1257,6 @@ def run(ctx):
     check_icvi_fuzzy(ctx)
     check_cviart(ctx)
     check_cviart_reconfigured(ctx)
+    check_cviart_base_with_own_validity(ctx)
     check_offset_sequences(ctx)
     check_offset_icvi_fuzzy(ctx)
